@@ -38,6 +38,37 @@ pub fn check(case: &Case, rec: &mut Rec) -> Option<Failure> {
         }
         return None;
     }
+    if case.kind == "short-restored-every-step" {
+        // like `short`, but after EVERY input the instance is serialized, restored, and the RESTORED copy carries on
+        // (a loader that pads / re-derives something only shows when checkpoints are taken during warm-up)
+        let mut id = match mk(case, rec) {
+            Ok(i) => i,
+            Err(f) => return Some(f),
+        };
+        let mut after_first: Option<usize> = None;
+        for (i, op) in case.ops.iter().enumerate() {
+            feed(rec, id, op)?;
+            let c = rec.serde(id);
+            if rec.get(c).is_none() {
+                return fail(case, "decode-failed", format!("deserialize failed after {} inputs", i + 1));
+            }
+            rec.drop_(id);
+            id = c;
+            let len = rec.state(id).len();
+            if len > bound {
+                return fail(case, "size-bound", format!("after {} inputs (restored after every input) the bincode size is {} > 256 + 64·Σperiods = {}", i + 1, len, bound));
+            }
+            match after_first {
+                None => after_first = Some(len),
+                Some(l0) => {
+                    if len != l0 {
+                        return fail(case, "size-not-constant", format!("bincode size changed from {} (after the first input) to {} after {} inputs, the instance being serialized and restored after every input", l0, len, i + 1));
+                    }
+                }
+            }
+        }
+        return None;
+    }
     let seed = case.extra[0] as u64;
     let len = case.extra[1] as usize;
     // extra = [seed, len, tail, special, position]; replay files written before the product of shapes existed
@@ -121,6 +152,13 @@ pub fn generate(r: &mut Runner) {
             let mut c = Case::new("C18", "short", name, &ps, &ms);
             let mx = ps.iter().copied().max().unwrap_or(1);
             c.ops = super::c04::history(r, name, (2 * mx + 5).min(300), 0.0, 100.0).into_iter().filter(|o| *o != Op::Reset).collect();
+            // every third configuration also with a serialize + restore after every input
+            if p % 3 == 1 {
+                let mut c2 = c.clone();
+                c2.kind = "short-restored-every-step".into();
+                c2.ops.truncate(140);
+                r.run(c2, true);
+            }
             r.run(c, true);
             p = if p < 16 { p + 1 } else { p + p / 3 };
             if np == 0 {
@@ -159,4 +197,4 @@ pub fn generate(r: &mut Runner) {
     }
 }
 
-pub const RULE: &str = "short: all 22 indicators, periods 1..=16 densely then geometrically to 48 (quick) / 512 (thorough): bincode size after EVERY input of 2n+5 inputs must stay <= 256 + 64·Σperiods and be constant after the first input; long: streams of 10^5 (quick) / 10^6 (thorough) inputs, for every indicator the full product of tail {rising, alternating, flat, strictly falling, random} × (no special value + special value {NaN, +inf, -inf, -0.0} × position {first sample, right after the window has filled, mid-stream (half-way, long after warm-up), repeated every g inputs with g drawn in 2..=2n+50}) = 85 shapes (shapes matter for data-dependent structures; the special value replaces the ordinary sample, for bar inputs in every price field) with periods from {1,3,7,14,64,200,512}: bincode size at 8 checkpoints, and live heap bytes (counting global allocator of the harness process) after warm-up (3n+10 inputs) vs at the end must not grow by more than the same bound. Every case non-trivial.";
+pub const RULE: &str = "short-restored-every-step: a third of the short configurations are run again with the instance serialized and restored after EVERY input, the restored copy carrying on (size constant and within the bound at every step); short: all 22 indicators, periods 1..=16 densely then geometrically to 48 (quick) / 512 (thorough): bincode size after EVERY input of 2n+5 inputs must stay <= 256 + 64·Σperiods and be constant after the first input; long: streams of 10^5 (quick) / 10^6 (thorough) inputs, for every indicator the full product of tail {rising, alternating, flat, strictly falling, random} × (no special value + special value {NaN, +inf, -inf, -0.0} × position {first sample, right after the window has filled, mid-stream (half-way, long after warm-up), repeated every g inputs with g drawn in 2..=2n+50}) = 85 shapes (shapes matter for data-dependent structures; the special value replaces the ordinary sample, for bar inputs in every price field) with periods from {1,3,7,14,64,200,512}: bincode size at 8 checkpoints, and live heap bytes (counting global allocator of the harness process) after warm-up (3n+10 inputs) vs at the end must not grow by more than the same bound. Every case non-trivial.";
